@@ -32,6 +32,13 @@ func genVacancyPlan(t *rapid.T) *Plan {
 		in.WatchFail = rapid.SampledFrom([]int{0, 0, 0, 1, 2, 3}).Draw(t, "watch_fail")
 		p.Instances = append(p.Instances, in)
 		p.Timeline = append(p.Timeline, Action{At: odd(2*latMax + time.Duration(rapid.Int64Range(1, int64(2*h)).Draw(t, "cstart"))), Kind: ActStart, Inst: i})
+		if rapid.IntRange(0, 3).Draw(t, "ctx_restart") == 0 {
+			// the candidate's election is ended by cancelling the context passed to Start (documented as a
+			// graceful stop) and the same object is started again: it must be a full candidate again
+			at := odd(time.Duration(rapid.Int64Range(int64(2*h), int64(4*h)).Draw(t, "cc_at")))
+			p.Timeline = append(p.Timeline, Action{At: at, Kind: ActCancelCtx, Inst: i},
+				Action{At: at + odd(time.Duration(rapid.Int64Range(1, int64(h)).Draw(t, "cc_gap"))), Kind: ActStart, Inst: i})
+		}
 		if rapid.IntRange(0, 3).Draw(t, "transient") == 0 {
 			from := time.Duration(rapid.Int64Range(int64(h), int64(6*h)).Draw(t, "tw_from"))
 			p.Windows = append(p.Windows, Window{Inst: i, From: from, To: from + time.Duration(rapid.Int64Range(1, int64(3*h)).Draw(t, "tw_len")),
@@ -66,7 +73,7 @@ func genVacancyPlan(t *rapid.T) *Plan {
 
 func TestC06(t *testing.T) {
 	RunCheck(t, CheckSpec{Prop: "C06",
-		Rule:        "a leader plus 1-3 candidates; the record becomes vacant by {graceful shutdown with DeleteKey, crash = permanent partition of the leader so that the record lapses, outside delete, plain Stop so that the record lapses} at a generated instant (optionally a second vacancy later); per candidate: all / a random subset / none of the watch events lost, deliveries delayed up to 3H, Watch() failing 0-3 times, a transient error/time-out window on its store operations that ends; jitter dice at the extremes. Oracle: for every vacancy instant (mutation log + expiry) with healthy started candidates, some candidate has a claim-up edge within 500ms + 100ms + 4 x max RTT of max(vacancy, candidate healthy, candidate started, last healthy claimant's claim end). Non-trivial = a vacancy with a healthy candidate and (no watch event of the vacancy delivered to any candidate, or an earlier Watch/partition failure on a candidate); distinct by plan hash.",
+		Rule:        "a leader plus 1-3 candidates; the record becomes vacant by {graceful shutdown with DeleteKey, crash = permanent partition of the leader so that the record lapses, outside delete, plain Stop so that the record lapses} at a generated instant (optionally a second vacancy later); per candidate: all / a random subset / none of the watch events lost, deliveries delayed up to 3H, Watch() failing 0-3 times, a transient error/time-out window on its store operations that ends, an end of its election by cancelling the Start context followed by a restart of the same object; jitter dice at the extremes. Oracle: for every vacancy instant (mutation log + expiry) with healthy started candidates, some candidate has a claim-up edge within 500ms + 100ms + 4 x max RTT of max(vacancy, candidate healthy, candidate started, last healthy claimant's claim end). Non-trivial = a vacancy with a healthy candidate and (no watch event of the vacancy delivered to any candidate, or an earlier Watch/partition failure on a candidate); distinct by plan hash.",
 		Gen:         genVacancyPlan,
 		Oracle:      OracleC06,
 		Assumptions: []string{"the allowance for 'operation latencies' is 4 x the largest request+response latency of the plan (Create, Watch, Get, Create)"}})
